@@ -15,7 +15,7 @@ CHECKS = {
    design="§4 C17"),
  "C05": dict(
    text="Bounded symbolic model checking of the status kernels: HTTPStatusCode / WSStatusCode on any uint32 code against the frozen documented tables; encodeGrpcMessage on every byte string up to the bound, decoded back with a reference Percent-Decoder and checked for legal output bytes. Through the real drivers (NewMux + registerService + ServeHTTP with a ResponseWriter model): gRPC grpc-status / grpc-message trailers, HTTP status + google.rpc.Status body under the negotiated type, Twirp name and message, gRPC-web trailer frame in binary and base64 text mode (and trailers-only responses) on HTTP/1.1 and HTTP/2, for handler codes 1..17 and symbolic messages.",
-   note="Trusted: go/ssa semantics, engine semantics, z3, exact model of fmt.Sprintf(\"%%%02x\"). Outside: what real clients decode (transports are not encoded), JSON rendering of the status body, status details, the WebSocket close frame (inline behind ws.UpgradeHTTP).",
+   note="Trusted: go/ssa semantics, engine semantics, z3, exact model of fmt.Sprintf(\"%%%02x\"). WebSocket: the close frame after a real ws.UpgradeHTTP (gobwas/ws interpreted from source) carries the mapped close code and the message cropped only to the 123-byte capacity. Outside: what real clients decode (transports are not encoded), JSON rendering of the status body, status details.",
    design="§4 C05"),
  "C01": dict(
    text="Bounded symbolic model checking of the real trie: rule sets are registered with the real addRule (lexTemplate, addVariable, addPath) over fake descriptors, then match (lexPath, search, variable.index, parseParam) runs on a fully symbolic request path; whatever is dispatched must be covered by a rule of that method under an independent reference matcher over the raw path (liberal reading of ':'), with captures byte-equal to the reference captures and no other field set.",
@@ -39,15 +39,15 @@ CHECKS = {
    design="§4 C14"),
  "C08": dict(
    text="Bounded symbolic model checking of every size comparison on the receive and send paths with the limits themselves symbolic: readAll / writeAll (unary HTTP), the three stream codecs' limit handling through streamHTTP.RecvMsg, streamGRPC.RecvMsg with a symbolic flag byte and all 2^32 frame lengths and (fake) decompression to an arbitrary length, streamGRPC.SendMsg with independent symbolic send and receive limits. Obligations: no payload larger than the receive limit reaches the codec (measured after decompression); nothing within the limits is refused, exactly-at-limit included.",
-   note="Trusted: go/ssa semantics, engine (witness replay), z3, recording codec, fake compressor (output length unrelated to input), sync.Pool model. Outside: WebSocket (gobwas/ws not encoded; no size check exists there by reading), gzip's real expansion, limit <= 0.",
+   note="Trusted: go/ssa semantics, engine (witness replay), z3, recording codec, fake compressor (output length unrelated to input), sync.Pool model. WebSocket text messages through the real gobwas/ws frame reader are checked against the limit too. Outside: gzip's real expansion, limit <= 0.",
    design="§4 C08"),
  "C06": dict(
    text="Bounded symbolic model checking of the stream plumbing around the real framing code: streamHTTP.RecvMsg/readMsg/decodeRequestArgs with CodecProto / CodecJSON / codecHTTPBody framing and a recording decoder, over every partition of the request bytes into reads, every EOF placement, every truncation offset and recycled buffers of several capacities; streamHTTP.SendMsg for unary, HttpBody and server-stream replies de-framed by a reference; one gRPC frame per direction. Obligation: the decoder sees exactly the sent payload sequence, then io.EOF (a stream cut inside a message yields the complete prefix and a non-EOF error).",
-   note="Trusted base as C08/C17. Unspecified: an empty request body may produce one body-less first message. Outside (N/A parts): WebSocket, gzip, HTTP/2 flow control, bidirectional interleaving (no goroutine model), gRPC-web framing (pending the serveGRPC driver).",
+   note="Trusted base as C08/C17. Unspecified: an empty request body may produce one body-less first message. Also through the real drivers: a bidirectional gRPC stream (serveGRPC), unary gRPC-web in binary / text mode, a WebSocket echo stream over the interpreted gobwas/ws, and the AsHTTPBodyReader / Writer passthrough. Outside (N/A parts): gzip, HTTP/2 flow control, bidirectional interleaving (no goroutine model): the claim is per direction.",
    design="§4 C06"),
  "C04": dict(
    text="Bounded symbolic model checking of the reply path: negotiateContentType on Accept headers with symbolic tokens and q digits against an RFC 7231 admission reference, arbitrary Accept / Accept-Encoding bytes (no crash, result among the offers), streamHTTP.SendMsg (body = what the codec named by Content-Type produced, HttpBody = raw data under its own type, send limit exact, response_body walks the reply's field), response_body resolution at registration in the reply type.",
-   note="Trusted base as C06. Outside: byte-level JSON / protobuf encoding (stub), Content-Encoding truthfulness (gzip / serveHTTP driver), Accept headers beyond the stated shapes.",
+   note="Trusted base as C06. Content-Encoding truthfulness through ServeHTTP with a marking compressor; the real JSON codec end to end for string fields. Outside: byte-level protobuf encoding (stub), gzip itself, Accept headers beyond the stated shapes.",
    design="§4 C04"),
  "C07": dict(
    text="Bounded symbolic model checking through the real public entry: NewMux + registerService + ServeHTTP -> serveHTTP -> RecvMsg -> params.set on fake descriptors, with the path capture and a competing value for the same field as independent symbolic strings supplied through the query string and/or the decoded body; the field the handler receives must equal the capture (a relational query: any model with received != capture is a counterexample).",
@@ -55,11 +55,11 @@ CHECKS = {
    design="§4 C07"),
  "C03": dict(
    text="Bounded symbolic model checking of request reconstruction: query-key resolution (proto / JSON names, dotted paths), per-kind conversion of URL text for string, bytes (base64 per the proto3-JSON rule, against a reference decoder), enum, int32 and bool, application to the message (set / append / nested creation), rejection of unknown keys and of paths through repeated or map fields, and through the real ServeHTTP the body plumbing (bytes reach the codec unmodified exactly once on the whole message or the body field, params after the body).",
-   note="Trusted base as C07 plus the exact model of encoding/json.Unmarshal for integer / bool targets. N/A part, stated: float / 64-bit / well-known-type text conversion, real JSON / protobuf codecs, gzip.",
+   note="Trusted base as C07 plus the exact model of encoding/json.Unmarshal for integer / bool targets. The real JSON codec (CodecJSON / protojson; modelled fragment under the engine, real codec natively) is driven end to end for string fields. N/A part, stated: float / 64-bit / well-known-type text conversion, the binary protobuf codec, gzip.",
    design="§4 C03"),
  "C18": dict(
    text="Bounded symbolic model checking of the interceptor / stats plumbing through the real drivers: one unary RPC through NewMux + registerService + ServeHTTP on the gRPC and the transcoding entry with every combination of stats handler and unary interceptor on/off and succeeding / failing handlers (symbolic code and message): the interceptor runs exactly once with the full method name, the recorded stats events form tag, in-header, begin, payload events, out-trailer, end with End exactly once carrying the handler's error and payload lengths equal to the message lengths, and the client-visible result satisfies the same oracle under every option combination.",
-   note="Trusted base as C07. Outside: stream interceptors / streaming shapes through the drivers, proxied handlers, WebSocket stats.",
+   note="Trusted base as C07. Also: stream interceptor (handing a wrapping stream to the handler) and per-message stats on a bidirectional gRPC stream; End event of WebSocket calls. Outside: proxied handlers.",
    design="§4 C18"),
  "C09": dict(
    text="Panic-freedom and termination as the only obligations, over the real entry point and kernels on unconstrained symbolic input: ServeHTTP with symbolic content types, Accept headers, paths and bodies across the gRPC, gRPC-web and transcoding entries on HTTP/1 and HTTP/2; match at the 64-token cap; query parameters over list / map / nested fields; registration of mutated templates; stream codec parsers; gRPC frame reader with stats; status tables; negotiation; timeout parser. Any panic escaping larking's code or a path exhausting the step budget is reported with the concrete request and replayed natively.",
